@@ -365,3 +365,16 @@ PROPS["C17"] = dict(
                "'*' and a digit after an operator other than '/' are outside the notation: step_row is undefined there and the contract only requires no panic",
                "non-ASCII input: every char outside the listed ones reaches the `other => Err` arm of the `match` as written"],
 )
+
+# ---------------------------------------------------------------- dependencies between properties
+# A property whose statement presupposes another's conclusion also runs that one's obligations: a failure there is a violation here too.
+#   C02 ("the score is the packing fraction, never above 1") presupposes C01 (a scored state has no overlap): W02/2 broke Atom2::intersects.
+#   C15 ("placement k = operation k of the group ...") presupposes that the table holds the group's operations (C16): W15/2 edited the p2gg table.
+DEPENDS = {"C02": ["C01"], "C15": ["C16"]}
+for _p, _ds in DEPENDS.items():
+    for _d in _ds:
+        for _key in ("units", "kani", "lemmas"):
+            PROPS[_p][_key] = list(PROPS[_p].get(_key, [])) + [x for x in PROPS[_d].get(_key, []) if x not in PROPS[_p].get(_key, [])]
+        PROPS[_p]["explanation"] += " Also runs the obligations of %s, which this property presupposes." % _d
+PROPS["C04"]["units"] = ["geom", "pairs"]
+PROPS["C04"]["explanation"] += " The shapes' transform() clauses of unit pairs (a placed shape is the shape moved componentwise by the FULL transform, linear part included) and the SVG matrix order are obligations of this property too."
